@@ -176,6 +176,11 @@ def generate(tier, rng):
                         if bad and dm["dtype"] != "int":
                             continue
                         cases.append(dict(stream="files", kind="dimfile", dim=dm, orient=orient, header=header, fmt=fmt, bad=bad))
+    # one reader object used again after the file was rewritten under the same path (a next scenario): the items are those the
+    # file holds now
+    for l, dm in DIMS.items():
+        for fmt in ("csv", "excel"):
+            cases.append(dict(stream="files", coq=False, kind="dimfile_reuse", dim=dm, orient=["row", "col"][len(cases) % 2], header=(len(cases) % 3 == 0), fmt=fmt))
     # whole numbers beyond 2^53 (serial numbers, identifiers): text files hold them exactly, and so must the items read from them
     big = dict(letter="i", name="serial", items=[9007199254740993, 5, 1700000000000000001, -9007199254740995], dtype="int")
     for orient in ("row", "col"):
@@ -256,6 +261,24 @@ def _observe_system(mfa_like):
 def run_impl(case):
     import flodym as fd
     import flodym.flow_naming as fn
+    if case["kind"] == "dimfile_reuse":
+        tmp = tempfile.mkdtemp(prefix="flodym-verif-io-")
+        try:
+            dm = case["dim"]
+            later = dict(dm, items=list(reversed(dm["items"]))[:-1] if len(dm["items"]) > 2 else list(reversed(dm["items"])))
+            ddef = fd.DimensionDefinition(name=dm["name"], letter=dm["letter"], dtype={"int": int, "str": str}[dm["dtype"]])
+            path, sheet, _ = _write_dim_file(tmp, dm, case["orient"], case["header"], case["fmt"])
+            reader = (fd.CSVDimensionReader({dm["name"]: path}) if case["fmt"] == "csv" else fd.ExcelDimensionReader({dm["name"]: path}))
+            try:
+                first = list(reader.read_dimension(ddef).items)
+                path2, _, _ = _write_dim_file(tmp, later, case["orient"], case["header"], case["fmt"])
+                assert path2 == path
+                second = list(reader.read_dimension(ddef).items)
+                return dict(kind="ok", first=first, second=second, want=[list(dm["items"]), list(later["items"])])
+            except Exception as e:  # noqa
+                return dict(kind="err", exc=type(e).__name__, msg=str(e)[:150])
+        finally:
+            shutil.rmtree(tmp, ignore_errors=True)
     if case["kind"] == "dimfile":
         tmp = tempfile.mkdtemp(prefix="flodym-verif-io-")
         try:
@@ -335,6 +358,12 @@ def run_impl(case):
 
 
 def oracle(case, obs):
+    if case["kind"] == "dimfile_reuse":
+        if obs["kind"] == "err":
+            return f"dimension file read twice through one reader ({case['fmt']}): {obs['exc']}: {obs['msg'][:80]}"
+        if [obs["first"], obs["second"]] != obs["want"]:
+            return f"one {case['fmt']} reader used again after the file was rewritten: items {obs['first']} then {obs['second']}, the file held {obs['want'][0]} then {obs['want'][1]}"
+        return None
     if case["kind"] == "dimfile":
         dm = case["dim"]
         if case["orient"] == "block" or case["bad"]:
@@ -444,7 +473,7 @@ def to_coq(case, obs):
 
 
 def nontrivial(case):
-    return case["kind"] == "dimfile" or bool(case.get("fault")) or bool(case["defn"]["flows"] or case["defn"]["stocks"])
+    return case["kind"] in ("dimfile", "dimfile_reuse") or bool(case.get("fault")) or bool(case["defn"]["flows"] or case["defn"]["stocks"])
 
 
 SIGNATURES = {}
